@@ -12,6 +12,7 @@
 #include "sandbox.hpp"
 
 extern "C" int snapraid_main(int argc, char** argv);
+extern "C" unsigned STREAM_SIZE; // cmdline/stream.c: a plain global, so the knob needs no hook
 
 // ------------------------------------------------------------------ helpers
 
@@ -222,6 +223,7 @@ Json CmdSpec::to_json() const
 	if (clock_jump_at) j.set("clock_jump_at", clock_jump_at).set("clock_jump_ns", clock_jump_ns);
 	if (trace_stat) j.set("trace_stat", true);
 	if (no_hash_opt) j.set("no_hash_opt", true);
+	if (stream_size) j.set("stream_size", stream_size);
 	if (!faults.empty()) {
 		Json f = Json::arr();
 		for (auto& x : faults) f.push(x.to_json());
@@ -245,6 +247,7 @@ CmdSpec CmdSpec::from_json(const Json& j)
 	s.clock_jump_at = (unsigned)j.num("clock_jump_at"); s.clock_jump_ns = j.num("clock_jump_ns");
 	s.trace_stat = j.at("trace_stat").b;
 	s.no_hash_opt = j.at("no_hash_opt").b;
+	s.stream_size = (unsigned)j.num("stream_size");
 	for (auto& f : j.at("faults").a) s.faults.push_back(Fault::from_json(f));
 	return s;
 }
@@ -726,6 +729,7 @@ static pid_t spawn(Sandbox& sb, const CmdSpec& spec, int slot, const std::string
 	std::vector<char*> argv;
 	for (auto& a : args) argv.push_back(strdup(a.c_str()));
 	argv.push_back(nullptr);
+	if (spec.stream_size) STREAM_SIZE = spec.stream_size;
 	sim_child_begin(slot);
 	int rc = snapraid_main((int)args.size(), argv.data());
 	sim_child_exit(rc);
@@ -742,6 +746,14 @@ static void collect(Sandbox& sb, int slot, const std::string& tag, int status, C
 	read_file(sb.abs("out/" + tag + ".out"), r.out);
 	read_file(sb.abs("out/" + tag + ".err"), r.err);
 	read_file(sb.abs("out/" + tag + ".log"), r.log);
+	// os_abort() prints a backtrace whose outer frames belong to the harness: not part of the behaviour
+	for (std::string* t : { &r.err, &r.log, &r.out }) {
+		if (t->find("[bt]") == std::string::npos) continue;
+		std::string kept;
+		for (auto& line : split(*t, '\n'))
+			if (line.find("[bt]") == std::string::npos) { kept += line; kept += '\n'; }
+		*t = kept;
+	}
 	// the sandbox root is the only run-to-run varying string: normalise it
 	for (std::string* t : { &r.out, &r.err, &r.log }) {
 		size_t p = 0;
